@@ -200,6 +200,8 @@ def main(tier, seed):
             nviol += 1
             if nviol <= 3:
                 rep.violation("%s: fitting a fresh model twice on equal data gives different forests/predictions" % kind, desc, key="determinism")
+    import drive_streams
+    nviol += drive_streams.file_models(rep, rng, tier)
     rep.corr["model_runs"] = dict(cases=mods["runs"], distribution=mods)
     rep.extra["oracle_violations"] = nviol
     rep.samples = [dict(stream="DISTANCES[name](x, y) on arrays containing exact zeros, twice, interleaved with other evaluations"),
